@@ -3,16 +3,17 @@ NEXT RNext
 CONSTANTS
   Ecus = {"A"}
   MaxMsgs = 5
-  RxDeltas = {0, 1, 11, 61}
+  RxDeltas = {0, 1, 11}
   TsVals = {0, 70}
   Kinds = {"norm"}
   IdxDeltas = {1}
   FixMerged = TRUE
   Scheds = {0}
   FreePolls = TRUE
-  PartialRecv = TRUE
+  PartialRecv = FALSE
   EacTimer = FALSE
   FixWithdraw = FALSE
 VIEW RView
-INVARIANTS NoMissingNoStale ExtraOnlyRemoved FileInfoOk EacOk CountsOk TableMirror
+CONSTRAINT KfFamily
+INVARIANTS KfWitness NoMissingNoStale ExtraOnlyRemoved FileInfoOk EacOk CountsOk TableMirror
 CHECK_DEADLOCK FALSE
